@@ -372,8 +372,8 @@ func init() {
 			run(d, m, cfg, mutated)
 		}
 		for _, k := range h.Known("C09") {
-			if k.Status != "open" {
-				continue
+			if k.Status != "open" || len(strings.Split(k.ID, "-")) > 3 {
+				continue // K-C09-<slice>-n are replayed by their slice (c09_<slice>.go)
 			}
 			var o1, o2 bytes.Buffer
 			e1 := mDef.Minify(k.ReplayStr("mediatype"), &o1, strings.NewReader(k.ReplayStr("input")))
